@@ -223,7 +223,15 @@ fn page_chain_with(h: &mut Hist, ctx: &mut Ctx, real_limit: bool) {
         ctx.cov.count("c06_chains_with_the_real_1000_limit");
         ctx.cov.max("max_utxos_of_one_address", best_n as u64);
     }
-    let first = match if real_limit { world::get_utxos_query(&a.text, net, &Filter::None) } else { world::get_utxos_limit(&a.text, net, &Filter::None, limit) } {
+    // "from any first response": with or without a confirmation filter
+    let best_len = h.model.best_chains()[0].len() as u32;
+    let first_filter = if h.rng.chance(1, 3) && best_len >= 1 {
+        ctx.cov.count("c06_chains_started_with_min_confirmations");
+        Filter::MinConf(h.rng.range(1, best_len as u64) as u32)
+    } else {
+        Filter::None
+    };
+    let first = match if real_limit { world::get_utxos_query(&a.text, net, &first_filter) } else { world::get_utxos_limit(&a.text, net, &first_filter, limit) } {
         Out::Ok(Ok(r)) => r,
         other => {
             ctx.violation(format!("first page failed: {:?}", other), None, json!({"log": h.log}));
